@@ -299,6 +299,7 @@ def generate() -> str:
 
 
 EXTRA_SECTIONS: list = []
+from extract_pytree import pytree_facts; EXTRA_SECTIONS.append(pytree_facts)
 
 
 def main(write: bool = True) -> int:
